@@ -227,21 +227,39 @@ def r12d(ctx):
             t = hd.blocks[b]['t']
             if t['k'] == 'call' and sg(t.get('fn', '')).endswith('Iterator::next'):
                 it = hd.arg(b, 0)
-                bound_ok = bound_ok or flow.mentions(hd.flow.local(it[1]) if it[0] == 'local' else it, lambda z: hd.rooted_at(z, rs[0]['block']))
+                bound_ok = bound_ok or flow.mentions(hd.flow.local(it[1]) if it[0] == 'local' else it, lambda z: _range_to_token(hd, z, rs[0]['block']))
         if not bound_ok:
             # the iterator local is a join point; look at its initial definition
             for l, ds in hd.flow.defs.items():
                 for d in ds:
                     if d[0] == 'assign':
                         e = hd.flow.rvalue(d[3], 0)
-                        if e[0] == 'agg' and 'Range' in e[2] and flow.mentions(e, lambda z: hd.rooted_at(z, rs[0]['block'])):
+                        if _range_to_token(hd, e, rs[0]['block']):
                             bound_ok = True
-    ctx.check(okw and okr and bound_ok, 'R12d', H + 'serialize', 'tokens', '-', 'header: writer (u32 = len, u32 x len), reader (u32 n, then n x u32 with the loop bound taken from the first token)',
+    ctx.check(okw and okr and bound_ok, 'R12d', H + 'serialize', 'tokens', '-', 'header: writer (u32 = len, u32 x len), reader (u32 n, then n x u32 with the loop running over 0..n, n being the first token itself)',
               'cache file header writer/reader disagree: writer %s reader %s' % ([t['width'] for t in ws], [(t['width'], t['rep'] is not None) for t in rs]))
     hl = an(F.body(H + 'header_len'))
     e = [x for (_, _, _, x) in hl.ret_sites()]
     ok = len(e) == 1 and e[0][0] == 'bin' and e[0][1] in ('Mul', 'MulO') and flow.const_eval(e[0][3]) == 4 and e[0][2][0] == 'bin' and e[0][2][1] in ('Add', 'AddO') and flow.const_eval(e[0][2][3]) == 1 and 'chunk_byte_indices' in flow.show(e[0][2][2])
     ctx.check(ok, 'R12d', H + 'header_len', 'formula', '-', 'header_len = (len + 1) * 4 = sum of the token widths')
+
+
+def _range_to_token(a, e, tok_block):
+    """e is a range 0..N (or 0..=N-1 is not accepted) whose end N is the value read by the token at tok_block itself — through casts and
+    the `?` payload only.  A bound that is merely derived from it (min/clamp, minus one, masked) reads a different number of
+    elements than the writer wrote (seed C12e: `.min(MAX)` dropped the trailing offsets of a full xorb's header)."""
+    if not (e[0] == 'agg' and 'ops::range::Range' in e[2]):
+        return False
+    d = dict(e[3])
+    end = d.get('end')
+    st = d.get('start')
+    if end is None or st is None:
+        return False
+    while end[0] == 'cast':
+        end = end[1]
+    while st[0] == 'cast':
+        st = st[1]
+    return st[:2] == ('const', 0) and a.rooted_at(end, tok_block)
 
 
 def r12f(ctx):
